@@ -27,6 +27,7 @@ def pool_inputs(r, n=80):
     base += [(s, "exec") for s in ["greeting = 'hello, ' f'dear {name}!'\n", "s = 'a' 'b' f'{c}' 'd'\n", "t = u'a' f'b{x}'\n", "u = ('x'\n     'y')\n", "v = b'a' b'b'\n", "w = f'{a}' 'tail' f'{b}'\n"]]
     # the file entry point, failing and succeeding (it keeps per-parse line tables of its own)
     base += [(s, "file") for s in ["x = 1\ny = (a 1)\n", "import os\nf() = 3\n", "ok = 1\nz = [1, 2]\n", "s = '''a\nb''' 3\n", "$(ls -l)\nq = 2\n", "def g(:\n", "with! c:\n    raw text\n"]]
+    base += [(s, "bare") for s in ["x = = 1\n", "# settings\ny = 2\n", "import os\nf() = 3\n", "z = [1, 2]\n", "def g(:\n"]]
     for _ in range(n // 4):
         g = pyprog.gen_program(r, fstrings=True, maxdepth=3, nstmts=2)
         if g:
